@@ -502,6 +502,35 @@ theorem C20_broadcast_takes_effect (r : RawAddr) (n : Nat) (hf : r.fam = .inet) 
 example : (netIfAddrsEntry cfg true ⟨.inet, [], 3232235786, some 24, none⟩).bcast = some 3232236031 := by
   decide
 
+/-- **C20_broadcast6_takes_effect.** The IPv6 half of the same branch (`WINDOWS and fam in
+    {AF_INET, AF_INET6}` → `_common.broadcast_addr`, `ipaddress.IPv6Network(f"{address}/{netmask}",
+    strict=False).broadcast_address`): for an AF_INET6 address whose netmask is a prefix length
+    n ≤ 128, the returned tuple carries the highest address of the network — the low 128 − n bits
+    set, the others the address's (bit-level specification `Spec.IsBroadcast6`). -/
+theorem C20_broadcast6_takes_effect (r : RawAddr) (n : Nat) (hf : r.fam = .inet6) (hp : r.plen = some n)
+    (hn : n ≤ 128) (hip : r.ip < 2 ^ 128) :
+    ∃ b, (netIfAddrsEntry cfg true r).bcast = some b ∧ Spec.IsBroadcast6 r.ip n b := by
+  have hfam : (r.fam == AddrFam.inet) = false := by rw [hf]; decide
+  have hlink : (r.fam == AddrFam.link) = false := by rw [hf]; decide
+  have h6 : (r.fam == AddrFam.inet6) = true := by rw [hf]; decide
+  refine ⟨ipv6Broadcast r.ip n, ?_, fun i => ipv6Broadcast_bits r.ip n hip i⟩
+  simp [netIfAddrsEntry, hfam, hlink, h6, hp, hn, cfg_broadcast_assigned]
+
+/-- fe80::1 / 64 → fe80::ffff:ffff:ffff:ffff; and without the assignment nothing arrives -/
+example : (netIfAddrsEntry cfg true ⟨.inet6, [], 0xfe800000000000000000000000000001, some 64, none⟩).bcast
+      = some 0xfe80000000000000ffffffffffffffff ∧
+    (netIfAddrsEntry { cfg with broadcastAssigned := false } true
+      ⟨.inet6, [], 0xfe800000000000000000000000000001, some 64, none⟩).bcast = none := by
+  decide
+
+/-- no netmask (what the real Windows native layer hands for IPv6), or a family other than
+    AF_INET / AF_INET6: the native value stays -/
+theorem C20_broadcast_untouched_without_netmask (c : Cfg) (w : Bool) (r : RawAddr) (h : r.plen = none) :
+    (netIfAddrsEntry c w r).bcast = r.bcast := by
+  unfold netIfAddrsEntry
+  simp only [h]
+  split <;> (try split) <;> simp
+
 /-- the pre-fix front end (`nt._replace(broadcast=broadcast)` without assignment) discards the
     computed address: lead L17, witness 192.168.1.10/255.255.255.0 → None -/
 theorem C20_broadcast_counterexample :
